@@ -14,6 +14,7 @@ Words (tuples):
   ("llink", id)              [^id]           -> link  local:id
   ("zlink", zid)             [zid]           -> link  zid:zid
   ("rlink", id)              [@id]           -> link  ref:id
+  ("emb", name)              ((name))        -> embedded reference: no link, no date
   ("url", text)              https://...     -> link  x:text
   ("prop", key, value)       key::value
   ("iprop", key, [values])   [key:: v1 v2]
@@ -57,6 +58,8 @@ def render_word(w: Word) -> str:
         return f"[@{w[1]}]"
     if k == "url":
         return w[1]
+    if k == "emb":
+        return f"(({w[1]}))"
     if k == "prop":
         return f"{w[1]}::{w[2]}"
     if k == "iprop":
